@@ -1,0 +1,7 @@
+//go:build verif
+
+package ha
+
+// ConnectToStreamForVerif runs one connectToStream call (C09 of /verif: the SSE line slicing is driven with
+// arbitrary byte streams served by an httptest server).  Add-only, -tags verif only.
+func (s *HASyncer) ConnectToStreamForVerif() error { return s.connectToStream() }
